@@ -610,7 +610,14 @@ pub fn gen_c07(seed: u64, thorough: bool) -> Case {
             0 | 1 => {}
             2 => case.items.push(ditem(&root, &pre, Some(depth + 1), None)),
             3 => case.items.push(ditem(&root, &pre, Some(depth.saturating_sub(1).max(1)), None)),
-            4 => case.items.push(ditem(&root, &pre, Some(depth + 1), Some(rng.log_uniform(1, 400)))),
+            4 => {
+                if class != 3 && rng.chance(1, 2) {
+                    // an unlimited search of the same position stopped somewhere in a deep iteration
+                    case.items.push(ditem(&root, &pre, None, Some(rng.log_uniform(100, 60_000))));
+                } else {
+                    case.items.push(ditem(&root, &pre, Some(depth + 1), Some(rng.log_uniform(1, 400))));
+                }
+            }
             _ => {
                 if !pre.is_empty() {
                     case.items.push(ditem(&root, &pre[..pre.len() - 1], Some(depth + 1), None));
@@ -891,6 +898,32 @@ pub fn gen_c13(seed: u64, _thorough: bool) -> Case {
             case.raw("stop");
             case.push(GK::AwaitBest);
         }
+        case.raw("quit");
+        return case;
+    }
+    if fam == 5 && seed % 16 >= 8 {
+        // a time budget together with a depth limit the search cannot reach within the budget
+        case.family = "depth-limit-beyond-the-budget".into();
+        case.params.policy = match rng.below(3) {
+            0 => Policy::Np,
+            1 => Policy::Rw(50),
+            _ => Policy::Pct(2),
+        };
+        case.params.fair = *rng.pick(&[2u32, 8, 64]);
+        case.params.node_cost = *rng.pick(&[100_000u64, 1_000_000]);
+        case.params.tt_cap = 1024;
+        case.params.max_polls = 60_000;
+        case.push(GK::PosCur);
+        let short = rng.log_uniform(1, 300);
+        let d = rng.range(4, 9);
+        if rng.chance(1, 2) {
+            case.raw(format!("go depth {} movetime {}", d, movetime_for(&case, short)));
+        } else {
+            let want = movetime_for(&case, short) - 5;
+            let own = rng.log_uniform(1_000, 600_000u64.min(50 * (want + 155)));
+            case.push(GK::GoClockDepth { own, own_inc: (want + 155).saturating_sub(own / 50), opp: rng.log_uniform(1, 600_000), opp_inc: 0, depth: d as u32 });
+        }
+        case.push(GK::AwaitBest);
         case.raw("quit");
         return case;
     }
